@@ -105,7 +105,7 @@ static struct vstate mk(void) {
     QV_ASSERT(s.ts == (v->qmutex != NULL), "C10: constructor creates the mutex exactly for THREADSAFE");
     QV_IN(int, depth0);             /* the caller may already hold the (recursive) lock */
     QV_ASSUME(depth0 >= 0 && depth0 <= 2);
-    gh_lock_depth = depth0; gh_lock_acquired = 0;
+    gh_lock_depth = depth0; gh_lock_acquired = 0; gh_lock_outer = 0;
     s.depth0 = depth0;
     gh_num = num;
 #ifdef QV_C13
@@ -129,7 +129,7 @@ static void pick_ghost(struct vstate *s) {
 
 #define BYTE(v, e, b) (((uchar *)(v)->data)[(size_t)(e) * OBJSIZE + (b)])
 #ifdef QV_C13
-#define LOCK_BALANCED(s) do { C13_SETTLE(); QV_ASSERT(gh_lock_depth == (s).depth0, "C13: the operation ran inside one critical section and released it"); } while (0)
+#define LOCK_BALANCED(s) do { C13_SETTLE(); QV_ASSERT(gh_lock_depth == (s).depth0 && gh_lock_outer <= 1, "C13: all shared accesses of the operation lie in ONE critical section, which is released on return"); gh_lock_outer = 0; } while (0)
 #else
 #define LOCK_BALANCED(s) QV_ASSERT(gh_lock_depth == (s).depth0, "C14: lock depth on return equals depth on entry")
 #endif
